@@ -928,6 +928,12 @@ func (r *runner) predeclared() starlark.StringDict {
 			mut := string(args[1].(starlark.String))
 			marker := fmt.Sprintf("m%d", len(r.attempts)+1)
 			v := r.w.colls[ci]
+			if n := starlark.Len(v); n > 200 {
+				// a collection that keeps growing under iteration: do not take O(n) snapshots of it
+				err := hostMutate(v, mut, marker)
+				r.attempts = append(r.attempts, attemptRec{ci, mut, err != nil, starlark.Len(v) == n})
+				return starlark.None, nil
+			}
 			before := content(v)
 			err := hostMutate(v, mut, marker)
 			r.attempts = append(r.attempts, attemptRec{ci, mut, err != nil, same(before, content(v))})
@@ -1098,10 +1104,17 @@ func runScenario(prog *starlark.Program, kinds []int, frozen []bool, sizes []int
 	res.Steps = th.ExecutionSteps() - steps0
 	res.Depth = th.CallStackDepth() - depth0
 	res.Attempts = r.attempts
+	if len(res.Attempts) > 500 {
+		res.Attempts = res.Attempts[:500]
+	}
 	for _, v := range w.colls {
 		n, _ := starlark.VerifIterCount(v)
 		res.IC = append(res.IC, n)
-		res.Content = append(res.Content, content(v))
+		c := content(v)
+		if len(c) > 200 {
+			c = append(c[:200:200], "...")
+		}
+		res.Content = append(res.Content, c)
 	}
 	for i, v := range w.colls {
 		if frozen[i] {
@@ -1150,7 +1163,7 @@ type line struct {
 	VKey    string   `json:"vkey,omitempty"`
 }
 
-const safetyLimit = 300000
+const safetyLimit = 150000
 
 // the Go-side oracle: the property text, nothing else
 func oracle(res result, frozen []bool, expects []expect, checkAttempts bool) string {
